@@ -103,18 +103,42 @@ fn fresh_dir(tag: &str) -> PathBuf {
     d
 }
 
-fn listing(expected: &RangeResult) -> String {
-    let mut s = String::new();
+/// Does the terminal listing show, date after date, the Hijri date and the seven entries of the library's
+/// result? Tolerant of layout: for each date a line containing the Hijri date text, then - in the
+/// result's order - one line per prayer containing its name and its time text (or "Invalid").
+fn listing_mismatch(stdout: &str, expected: &RangeResult) -> Option<String> {
+    let lines: Vec<&str> = stdout.lines().collect();
+    let mut i = 0;
+    let mut next_with = |needles: &[String], what: String| -> Result<(), String> {
+        while i < lines.len() {
+            let l = lines[i];
+            i += 1;
+            if needles.iter().all(|n| l.contains(n.as_str())) {
+                return Ok(());
+            }
+        }
+        Err(what)
+    };
     for (d, m) in expected {
-        s.push_str(&format!("\n{} ({})\n", HijriDate::from(*d), d.format("%A, %B %d, %Y")));
+        let hijri = HijriDate::from(*d).to_string();
+        if let Err(e) = next_with(&[hijri.clone()], format!("no line with the Hijri date '{}' for {}", hijri, d)) {
+            return Some(e);
+        }
         for (p, t) in m {
-            match t {
-                Ok(t) => s.push_str(&format!("  {}: {}\n", p, t)),
-                Err(_) => s.push_str(&format!("  {}: Invalid\n", p)),
+            let val = match t {
+                Ok(t) => t.to_string().trim().to_string(),
+                Err(_) => "Invalid".to_string(),
+            };
+            if let Err(e) = next_with(&[p.to_string(), val.clone()], format!("no line with '{}' and '{}' for {}", p, val, d)) {
+                return Some(e);
             }
         }
     }
-    s
+    // nothing but blank lines may follow (no entries for dates outside the range)
+    if lines[i..].iter().any(|l| SEQ7.iter().any(|p| l.contains(&format!("{}:", p)))) {
+        return Some("entries after the last expected date".into());
+    }
+    None
 }
 
 pub fn judge(ctx: &Ctx, l: &mut Local, c: &Cfg, tag: &str) {
@@ -169,11 +193,9 @@ pub fn judge(ctx: &Ctx, l: &mut Local, c: &Cfg, tag: &str) {
     a3.extend(["-p".into(), "p1.json".into()]);
     let r3 = run_cli(&dir, &a3);
     l.evals += 1;
-    let want = listing(&expected);
-    if r3.code != Some(0) || r3.stdout != want {
-        let (gl, wl): (Vec<&str>, Vec<&str>) = (r3.stdout.lines().collect(), want.lines().collect());
-        let i = (0..gl.len().max(wl.len())).find(|&i| gl.get(i) != wl.get(i));
-        fail("terminal_listing_shows_hijri_date_and_seven_entries", json!({"exit": r3.code, "first_differing_line": i, "got": i.and_then(|i| gl.get(i)), "expected": i.and_then(|i| wl.get(i))}));
+    let mm = listing_mismatch(&r3.stdout, &expected);
+    if r3.code != Some(0) || mm.is_some() {
+        fail("terminal_listing_shows_hijri_date_and_seven_entries", json!({"exit": r3.code, "what": mm, "first_lines": r3.stdout.lines().take(10).collect::<Vec<_>>()}));
     }
     // (the file's bytes may differ between runs: map key order is unspecified; it must decode to the same document)
     let p1b = std::fs::read(dir.join("p1.json")).unwrap_or_default();
@@ -187,7 +209,7 @@ pub fn judge(ctx: &Ctx, l: &mut Local, c: &Cfg, tag: &str) {
     // run 4: -i with terminal listing
     let r4 = run_cli(&dir, &["-i".to_string(), "p1.json".to_string()]);
     l.evals += 1;
-    if r4.code != Some(0) || r4.stdout != want {
+    if r4.code != Some(0) || r4.stdout != r3.stdout {
         fail("parameter_file_reproduces_listing", json!({"exit": r4.code, "stderr": r4.stderr}));
     }
     // run 4b: -o alone (no -p) and -i together with -p and -o: the remaining flag combinations
@@ -234,7 +256,7 @@ pub fn judge(ctx: &Ctx, l: &mut Local, c: &Cfg, tag: &str) {
     }
     l.nontrivial += 1;
     if ctx.want_sample() {
-        ctx.sample(json!({"args": a1, "dates": expected.len(), "first_listing_lines": want.lines().take(4).collect::<Vec<_>>()}));
+        ctx.sample(json!({"args": a1, "dates": expected.len(), "first_listing_lines": r3.stdout.lines().take(4).collect::<Vec<_>>()}));
     }
     let _ = std::fs::remove_dir_all(&dir);
 }
